@@ -51,6 +51,15 @@ def jobs(tier):
                         dict(prop="C16", version=1, shape="flat2", P=16384, K=2, dmg=dmg, source=source, aligned=True)))
         out.append(("v1.nested3.P16384.aligned.%s.i-i-f" % source, "job_recheck",
                     dict(prop="C16", version=1, shape="nested3", P=16384, K=1, dmg=["intact", "intact", "flip"], source=source, aligned=True)))
+    for dmg in [['flip'], ['intact', 'trunc']]:          # the largest piece length the tool accepts (v1 reads a piece in one go)
+        shape = "single" if len(dmg) == 1 else "flat2"
+        out.append(("v1.%s.P33554432.%s" % (shape, "-".join(k[0] for k in dmg)), "job_recheck",
+                    dict(prop="C16", version=1, shape=shape, P=2 ** 25, K=1, dmg=dmg, source="ref")))
+    for version in (1, 2, 3):       # identical copies of one file in the tree, damage in one of them
+        for dmg in (["intact", "flip"], ["flip", "intact"], ["intact", "intact", "flip"]):
+            shape = "flat2" if len(dmg) == 2 else "nested3"
+            out.append(("v%d.%s.P16384.identical-files.%s" % (version, shape, "-".join(k[0] for k in dmg)), "job_recheck",
+                        dict(prop="C16", version=version, shape=shape, P=16384, K=2 if shape == "flat2" else 1, dmg=dmg, source="ref", dup=True)))
     out.extend(rk.matrix_rows(tier, "C16"))
     # a v1 file list in an order other tools write: the files of one directory are not next to each other
     for dmg in (["intact", "intact", "intact"], ["intact", "flip", "intact"], ["missing", "intact", "intact"], ["intact", "intact", "trunc"]):
